@@ -104,7 +104,7 @@ Definition is_v1_p2tr_p (s : bytes) := andp (lenb s 34) (andp (at_eq s 0 OP_PUSH
 Definition is_v0_p2wpkh_p (s : bytes) := andp (lenb s 22) (andp (at_eq s 0 OP_PUSHBYTES_0) (at_eq s 1 OP_PUSHBYTES_20)).
 Definition is_v1plus_p2witprog_p (s : bytes) :=
   andp (Val (1 <? length s)%nat) (andp (do b <- idx s 1; Val (lenN s =? b2n b + 2))
-  (andp (at_ge s 0 OP_PUSHNUM_1) (andp (at_le s 0 OP_PUSHNUM_16) (at_le s 1 OP_PUSHBYTES_40)))).
+  (andp (at_ge s 0 OP_PUSHNUM_1) (andp (at_le s 0 OP_PUSHNUM_16) (andp (at_ge s 1 OP_PUSHBYTES_2) (at_le s 1 OP_PUSHBYTES_40))))).
 Definition is_op_return_p (s : bytes) := andp (Val (negb (Script.is_empty s))) (at_eq s 0 OP_RETURN).
 
 (* ================================================================================================ src/blech32/decode.rs *)
